@@ -85,10 +85,19 @@ class History:
         self.failed = True
         self.ctx.violation(None, what, self.witness(res, extra))
 
-    def clean(self, res):
+    def clean(self, res, faulted=False):
         if res.get('decode_errors'):
             self.fail('server sent an undecodable frame', res)
             return False
+        if faulted:
+            # the disconnect handler was scripted to raise: the exception
+            # may reach the caller of disconnect() or the log (not judged),
+            # nothing else may
+            if res.get('exc') in ('Injected', 'InjectedBase'):
+                res = dict(res, exc=None)
+            res = dict(res, errors=[e for e in res.get('errors') or []
+                                    if e['exc'] not in ('Injected',
+                                                        'InjectedBase')])
         if res.get('exc') or res.get('errors'):
             self.fail('operation raised / error escaped: %s' % (
                 res.get('exc') or res['errors'][0]['exc']), res)
@@ -286,11 +295,28 @@ class History:
             return
         T, ns = rng.choice(sorted(self.conn))
         sid = self.conn[(T, ns)]
+        # some disconnect handlers fail: the connection still ends, exactly
+        # once, and the transport's other namespaces end / stay as they
+        # would have.  A non-Exception (green-thread timeout or kill) is only
+        # scripted where a single handler runs.
+        faulted = rng.random() < 0.3
+        nhandlers = len([k2 for k2 in self.conn if k2[0] == T
+                         and k2[1] in self.handler_ns])
+        nconn = len([k2 for k2 in self.conn if k2[0] == T])
+        if faulted:
+            if k < 0.75 or nconn <= 1:
+                script = [rng.choice(['exc', 'base'])]
+            else:
+                script = [rng.choice(['exc', 'exc', 'ok'])
+                          for _ in range(nhandlers)]
+            self.r.disconnect_script = list(script)
+            self.ctx.count('terminations_with_failing_handler')
         if k < 0.45:
             op = ['cdisc', T, ns]
-            self.ops.append(op)
+            self.ops.append(op + ([script] if faulted else []))
             res = self.r.step(op)
-            if not self.clean(res):
+            self.r.disconnect_script = []
+            if not self.clean(res, faulted):
                 return
             if not self.expect_disconnects(res, [(sid, ns,
                                                   'client disconnect')]):
@@ -302,9 +328,10 @@ class History:
             cause = 'client'
         elif k < 0.75:
             op = ['sdisc', sid, ns]
-            self.ops.append(op)
+            self.ops.append(op + ([script] if faulted else []))
             res = self.r.step(op)
-            if not self.clean(res):
+            self.r.disconnect_script = []
+            if not self.clean(res, faulted):
                 return
             if not self.expect_disconnects(res, [(sid, ns,
                                                   'server disconnect')]):
@@ -324,7 +351,7 @@ class History:
             else:
                 reason = rng.choice(REASONS)
                 op = ['lose', T]
-            self.ops.append(op)
+            self.ops.append(op + ([script] if faulted else []))
             if op[0] == 'lose':
                 t = self.r.T[T]
                 res = {'op': op, '_ev0': len(self.r.events)}
@@ -335,7 +362,8 @@ class History:
                 self.r._collect(res)
             else:
                 res = self.r.step(op)
-            if not self.clean(res):
+            self.r.disconnect_script = []
+            if not self.clean(res, faulted):
                 return
             gone = [k2 for k2 in sorted(self.conn) if k2[0] == T]
             if not self.expect_disconnects(
@@ -432,6 +460,7 @@ def run(ctx):
     ctx.require('refusals_checked', 20)
     ctx.require('refused_unserved_or_duplicate', 10)
     ctx.require('terminations_checked', 50)
+    ctx.require('terminations_with_failing_handler', 10)
     ctx.require('probes', 50)
     ctx.require('sids_checked_fresh', 50)
     try:
